@@ -1,12 +1,20 @@
 /-
   C37 — property theorems over the LTS `XC.C37.next` (model of ssh/tcpip.go + streamlocal.go AS WRITTEN).
 
-  Safety (all interleavings, unbounded):  no_panic, delivered_only_exact_match, buffered_only_exact_match,
-      unmatched_rejected, never_registered_never_delivered, accept_after_close_errors (+ closed_stays_closed_empty,
-      close_closes_own_channel).
-  `close_returns` is FALSE for the code as written: close_can_deadlock, close_blocked_forever (finding F3);
-      what does hold: close_enabled_iff_unlocked, parked_needs_two_unaccepted.
-  "later Accept calls return an error" is false while a forward is buffered: accept_after_close_may_succeed.
+  Safety (all interleavings, unbounded):
+      no_panic                          no send on / close of a closed Go channel is reachable
+      delivered_only_exact_match        every accepted connection was addressed to the listener's exact key
+      buffered_only_exact_match, never_registered_never_delivered
+      unmatched_rejected                no matching entry ⇒ Prohibited on the wire, nothing delivered
+      mutex_exclusive                   at most one goroutine inside forwardList.forward
+      accept_after_close_errors         Accept on a closed + drained listener returns an error
+      close_closes_own_channel          Close closes the listener's own channel (unique address)
+      closed_stays_closed_empty(_run)   …and such a listener never receives anything again
+  Liveness clause "closing a listener returns" is FALSE for the code as written:
+      close_can_deadlock, close_blocked_forever, not_close_returns            (finding F3)
+      what does hold: close_enabled_iff_unlocked, parked_needs_two_unaccepted
+  "later Accept calls return an error" is false while one forward is buffered:
+      accept_after_close_may_succeed                                           (second finding)
 -/
 import XC.Proofs.C37
 namespace XC.C37
@@ -602,6 +610,185 @@ theorem excl_step {s s' : State} (a : Act) (he : Excl s) (h : next s a = some s'
 /-- **mutex_exclusive**: in every reachable state at most one goroutine is inside forwardList.forward -/
 theorem mutex_exclusive {s : State} (h : Reachable s) : Excl s :=
   invariant_of_step Excl (by simp [Excl, init]) (fun _ a _ he hs => excl_step a he hs) s h
+
+
+
+/-- listener `lid`'s Go channel is closed and drained -/
+def ClosedEmpty (ls : List Lst) (lid : Nat) : Prop :=
+  ∃ l, getLst ls lid = some l ∧ l.closed = true ∧ l.buf = none
+
+theorem ce_updLst {ls : List Lst} {lid lid' : Nat} {g : Lst → Lst} (hid : ∀ l, (g l).id = l.id)
+    (hg : lid' = lid → ∀ l, l.closed = true → l.buf = none → (g l).closed = true ∧ (g l).buf = none)
+    (h : ClosedEmpty ls lid) : ClosedEmpty (updLst ls lid' g) lid := by
+  obtain ⟨l, hl, hc, hb⟩ := h
+  rw [ClosedEmpty, getLst_updLst _ _ _ _ hid, hl]
+  simp only [Option.map_some, Option.some.injEq, exists_eq_left']
+  by_cases heq : l.id = lid'
+  · simp only [heq, if_true]
+    exact hg (by rw [← heq]; exact getLst_id hl) l hc hb
+  · simp only [heq, if_false]; exact ⟨hc, hb⟩
+
+theorem ce_putChan {s : State} {lid lid' : Nat} {f : Fwd} (hne : ∀ l, getLst s.lsts lid' = some l → l.closed = false)
+    (h : ClosedEmpty s.lsts lid) : ClosedEmpty (putChan s lid' f).lsts lid := by
+  unfold putChan
+  split
+  · exact h
+  · rename_i l' hl'
+    have hopen := hne l' hl'
+    simp only [hopen, Bool.false_eq_true, if_false]
+    apply ce_updLst (by simp) _ h
+    intro heq
+    subst heq
+    obtain ⟨l, hl, hc, _⟩ := h
+    rw [hl] at hl'; cases hl'
+    rw [hc] at hopen; cases hopen
+
+theorem ce_closeChan {s : State} {lid lid' : Nat} (h : ClosedEmpty s.lsts lid) :
+    ClosedEmpty (closeChan s lid').lsts lid := by
+  unfold closeChan
+  split
+  · exact h
+  · split
+    · exact h
+    · exact ce_updLst (by simp) (by intro _ l _ hb; exact ⟨rfl, hb⟩) h
+
+theorem ce_closeAllChans {s : State} {lid : Nat} (es : List (Key × Nat)) (h : ClosedEmpty s.lsts lid) :
+    ClosedEmpty (closeAllChans s es).lsts lid := by
+  induction es generalizing s with
+  | nil => exact h
+  | cons a t ih =>
+    obtain ⟨k, lid'⟩ := a
+    simp only [closeAllChans]
+    exact ih (ce_closeChan h)
+
+theorem emitWire_lsts (s : State) (e : Ev) : (emitWire s e).lsts = s.lsts := by
+  unfold emitWire; split <;> rfl
+
+/-- **closed_stays_closed_empty**: once a listener's channel is closed and drained it stays so, whatever happens
+    next — no later forward can be delivered to it (its entry is gone), so every later Accept returns an error
+    (`accept_after_close_errors`). -/
+theorem closed_stays_closed_empty {s s' : State} (a : Act) (hi : Inv s) (lid : Nat)
+    (h : ClosedEmpty s.lsts lid) (hs : next s a = some s') : ClosedEmpty s'.lsts lid := by
+  cases a with
+  | listenCall c k d =>
+    simp only [next] at hs
+    split at hs
+    · cases hs; exact h
+    · split at hs <;> (cases hs; exact h)
+  | fwdSend f =>
+    simp only [next] at hs
+    split at hs
+    · cases hs
+    · split at hs
+      · cases hs; rw [emitWire_lsts]; exact h
+      · cases hs; rw [setH_lsts]; exact h
+  | acceptCall c l =>
+    simp only [next] at hs
+    split at hs
+    · cases hs
+    · cases hs; exact h
+  | closeCall c l b =>
+    simp only [next] at hs
+    split at hs
+    · cases hs
+    · cases hs; exact h
+  | disconnect =>
+    simp only [next] at hs
+    split at hs
+    · cases hs
+    · cases hs; exact h
+  | addRun c =>
+    simp only [next] at hs
+    split at hs
+    · cases hs
+    · split at hs
+      · cases hs
+      · cases hs
+        obtain ⟨l, hl, hc, hb⟩ := h
+        exact ⟨l, by simp only [emit]; exact getLst_append_of_some hl, hc, hb⟩
+  | hTake n =>
+    simp only [next] at hs
+    split at hs
+    · cases hs
+    · cases hs
+    · split at hs
+      · cases hs; rw [emitWire_lsts, setH_lsts]; exact h
+      · split at hs
+        · cases hs
+        · split at hs
+          · cases hs; rw [emitWire_lsts, setH_lsts]; exact h
+          · rename_i lid' hfind
+            split at hs
+            · cases hs
+            · split at hs
+              · cases hs
+                apply ce_putChan _ (by rw [setH_lsts]; exact h)
+                intro l' hl'
+                rw [setH_lsts] at hl'
+                obtain ⟨l0, hl0, _, hc0⟩ := hi.entries_open _ _ (findEntry_mem hfind)
+                rw [hl0] at hl'; cases hl'; exact hc0
+              · cases hs; rw [setH_lsts]; exact h
+  | hSend n =>
+    simp only [next] at hs
+    split at hs
+    · cases hs
+    · rename_i f lid' hpc
+      obtain ⟨l0, hl0, _, hc0⟩ := hi.entries_open _ _ (hi.pc_entry n f lid' hpc)
+      simp only [hl0, hc0, Bool.false_eq_true, ↓reduceIte] at hs
+      split at hs
+      · cases hs
+        apply ce_putChan _ (by rw [setH_lsts]; exact h)
+        intro l' hl'
+        rw [setH_lsts] at hl'
+        rw [hl0] at hl'; cases hl'; exact hc0
+      · cases hs
+  | accRun c =>
+    simp only [next] at hs
+    split at hs
+    · cases hs
+    · split at hs
+      · cases hs
+      · split at hs
+        · split at hs
+          · cases hs
+            exact ce_updLst (by simp) (by intro _ l hc _; exact ⟨hc, rfl⟩) h
+          · cases hs
+            exact ce_updLst (by simp) (by intro _ l hc _; exact ⟨hc, rfl⟩) h
+        · split at hs
+          · cases hs; exact h
+          · cases hs
+  | closeRun c =>
+    simp only [next] at hs
+    split at hs
+    · cases hs
+    · split at hs
+      · cases hs
+      · split at hs
+        · cases hs
+        · cases hs
+          simp only [emit]
+          split
+          · exact h
+          · exact ce_closeChan (s := { s with closers := _, entries := _ }) h
+  | closeAllRun =>
+    simp only [next] at hs
+    split at hs
+    · cases hs
+    · cases hs
+      exact ce_closeAllChans s.entries h
+
+/-- …hence along any continuation of a reachable state -/
+theorem closed_stays_closed_empty_run {s s' : State} (hr : Reachable s) (lid : Nat) (acts : List Act)
+    (h : ClosedEmpty s.lsts lid) (hs : runFrom next s acts = some s') : ClosedEmpty s'.lsts lid := by
+  induction acts generalizing s with
+  | nil => simp [runFrom] at hs; subst hs; exact h
+  | cons a as ih =>
+    simp only [runFrom] at hs
+    cases hst : next s a with
+    | none => simp [hst] at hs
+    | some s1 =>
+      simp [hst] at hs
+      exact ih (ReachableBy.step a hr hst) (closed_stays_closed_empty a (inv_reachable hr) lid h hst) hs
 
 
 end XC.C37
